@@ -240,6 +240,8 @@ def lp_items(pid, tier, seed):
         add("HR two-sided x P x pc x -stab x {none,maxsize,minsize}",
             I.family_HR(True, sizes=I.HR_SIZES[:6]),
             lambda i: optvecs(True, st, sizecrit))
+        add("M medium structured (4-5 students, 4 projects, 2-3 lecturers) x pc x -stab x {none,maxsize,minsize}",
+            I.family_M(), lambda i: optvecs(True, st, sizecrit))
         add("F4 (student lists over four projects) x {unit,cap2} x -stab x {none,maxsize}",
             I.family_F4(profiles=("unit", "cap2")),
             lambda i: optvecs(True, ((False, True),), none + [[("maxsize", ())]]))
@@ -296,6 +298,12 @@ def lp_items(pid, tier, seed):
             lambda i: optvecs(True, ((False, False),),
                               [[("gre", ())], [("gen", ())]] +
                               ([[("gre", (2,))], [("gen", (2,))]] if ref.R(i) >= 2 else [])))
+        add("M medium structured (5 students%s, 4 projects, 2-3 lecturers, cycles/crossings/ties) x (0,0) x {gre, gen, gre 2, mincost 1 1, minsqcost 1 2, lsb, mincostlsb 1 2}" % (" and 4" if thorough else ""),
+            I.family_M(sizes=(4, 5) if thorough else (5,)),
+            lambda i: optvecs(True, ((False, False),),
+                              [[("gre", ())], [("gen", ())], [("gre", (2,))],
+                               [("mincost", (1, 1))], [("minsqcost", (1, 2))],
+                               [("lsb", ())], [("mincostlsb", (1, 2))]]))
         wc = [[("mincost", (1, 2))], [("mincost", (2, 1))],
               [("minsqcost", (1, 2))], [("minsqcost", (2, 1))]]
         add("HR (3,2)%s two-sided x {h1lq2uq3,lq1uq2%s} x (0,0) x weighted cost criteria (1,2),(2,1) "
@@ -368,6 +376,19 @@ def lp_items(pid, tier, seed):
         add("Q-structs x P x (0,0),(1,1) x 6 pairs with argument variants",
             [q for q in qs if ref.R(q) >= 2],
             lambda i: optvecs(True, DIAG2, argpairs))
+        long_lists = [
+            [("maxsize", ()), ("gre", ()), ("lsb", ())],
+            [("maxsize", ()), ("gen", ()), ("mincost", (1, 1)), ("lmb", ()), ("lsb", ())],
+            [("lsb", ()), ("maxsize", ()), ("gre", (2,)), ("mincost", ()), ("minsqcost", (1, 1)),
+             ("gen", ())],
+            [(c, ()) for c in ("maxsize", "minsize", "gen", "gre", "mincost", "minsqcost",
+                               "lmb", "lsb", "mincostlsb")],
+            [(c, ()) for c in ("mincostlsb", "lsb", "lmb", "minsqcost", "mincost", "gre",
+                               "gen", "minsize", "maxsize")],
+        ]
+        add("M medium structured (5 students%s) x (0,0),(0,1) x criteria lists of length 3, 5, 6 and all 9 (both directions)" % (" and 4" if thorough else ""),
+            I.family_M(sizes=(4, 5) if thorough else (5,)),
+            lambda i: optvecs(True, ((False, False), (False, True)), long_lists))
         if thorough:
             six = ("maxsize", "gen", "gre", "mincost", "lsb", "mincostlsb")
             triples = [[(a, ()), (b, ()), (c, ())] for a in six for b in six
